@@ -90,7 +90,7 @@ void Runner<T, E>::run_impl(Plan const& p, std::vector<std::size_t> const& calls
             }
             else
             {
-                MI in(mf, p.dims, mm, p.dims, p.chan, params);
+                MI in(mf, p.dims, mm, p.mapd ? p.mapd : p.dims, p.chan, params);
                 MChk r = hep::multi_channel(in, calls, *mc_, SimCallback<MChk>(ctl));
                 *mc_ = std::move(r);
             }
@@ -166,7 +166,7 @@ void Runner<T, E>::run_impl(Plan const& p, std::vector<std::size_t> const& calls
         }
         else
         {
-            MI in(mf, p.dims, mm, p.dims, p.chan, params);
+            MI in(mf, p.dims, mm, p.mapd ? p.mapd : p.dims, p.chan, params);
             MChk start(*mc_);
             mres[r].reset(new MChk(hep::mpi_multi_channel(MPI_COMM_WORLD, in, calls, start,
                 SimMpiCallback<MChk>(ctl))));
@@ -294,7 +294,7 @@ SerialRef Runner<T, E>::serial_iteration(Plan const& p, u64 k, RunCtl const& ctl
             if (p.acc != 0)
             {
                 hep::multi_channel_integrand<T, MultiFunc<T>, MultiMap<T>, true> in(f, p.dims, m,
-                    p.dims, p.chan, params);
+                    p.mapd ? p.mapd : p.dims, p.chan, params);
                 auto const r = hep::multi_channel_iteration(in, calls, res.channel_weights(), gen);
                 view_plain(r, ref.result);
                 for (T a : r.adjustment_data()) ref.result.adj.push_back(a);
@@ -302,7 +302,7 @@ SerialRef Runner<T, E>::serial_iteration(Plan const& p, u64 k, RunCtl const& ctl
             else
             {
                 hep::multi_channel_integrand<T, MultiFunc<T>, MultiMap<T>, false> in(f, p.dims, m,
-                    p.dims, p.chan, {});
+                    p.mapd ? p.mapd : p.dims, p.chan, {});
                 auto const r = hep::multi_channel_iteration(in, calls, res.channel_weights(), gen);
                 view_plain(r, ref.result);
                 for (T a : r.adjustment_data()) ref.result.adj.push_back(a);
